@@ -180,8 +180,8 @@ theorem filterMap_flatMap {α β γ} (f : α → Option β) (g : β → List γ)
   | nil => rfl
   | cons a r ih =>
     cases h : f a with
-    | none => simp [List.filterMap_cons, h, ih]
-    | some b => simp [List.filterMap_cons, h, ih]
+    | none => simp [h, ih]
+    | some b => simp [h, ih]
 
 /-- **the claimed keys of a script's map**, piece by piece in map order -/
 theorem claimedKeys_ptxOf (input : List Scaffold) (s : Script) :
